@@ -1,1 +1,44 @@
-fn main(){}
+//! vexec: executes seeded operation traces and prints the observable transcript (C18), and runs the
+//! constant-time entry points on tainted secrets under valgrind (C02).
+use vh::engine::*;
+
+fn arg(args: &[String], name: &str) -> Option<String> {
+    args.iter().position(|a| a == name).and_then(|i| args.get(i + 1).cloned())
+}
+
+fn main() {
+    let args: Vec<String> = std::env::args().collect();
+    install_quiet_panic_hook();
+    match args.get(1).map(|s| s.as_str()) {
+        Some("transcript") => {
+            let seed: u64 = arg(&args, "--seed").and_then(|s| s.parse().ok()).unwrap_or(1);
+            let count: usize = arg(&args, "--count").and_then(|s| s.parse().ok()).unwrap_or(1000);
+            let threads: usize = arg(&args, "--threads").and_then(|s| s.parse().ok()).unwrap_or(4);
+            let ops = vh::transcript::trace(seed, count);
+            if let Some(d) = arg(&args, "--dump") {
+                let i: usize = d.parse().unwrap();
+                println!("{}", serde_json::to_string_pretty(&serde_json::json!({"index": i, "op": serde_json::to_value(&ops[i]).unwrap(), "output": guard(|| hex(&vh::transcript::exec(&ops[i])))})).unwrap());
+                return;
+            }
+            let mut lines: Vec<String> = vec![String::new(); ops.len()];
+            let next = std::sync::atomic::AtomicUsize::new(0);
+            let out = std::sync::Mutex::new(&mut lines);
+            std::thread::scope(|s| {
+                for _ in 0..threads {
+                    s.spawn(|| loop {
+                        let i = next.fetch_add(1, std::sync::atomic::Ordering::Relaxed);
+                        if i >= ops.len() { break; }
+                        let l = vh::transcript::line(i, &ops[i]);
+                        out.lock().unwrap()[i] = l;
+                    });
+                }
+            });
+            for l in lines { println!("{l}"); }
+        }
+        Some("ct") => vh::ct::main(&args),
+        _ => {
+            eprintln!("usage: vexec transcript --seed N --count K [--dump i] | vexec ct ...");
+            std::process::exit(2);
+        }
+    }
+}
